@@ -72,6 +72,68 @@ fn docs_of(src: &str) -> String {
     }
 }
 
+/// canonical dump of the attribute struct `from_attrs` produces at one of the four positions:
+/// `target=value` for every field that is set, sorted, joined by `;`
+fn attrs_dump(pos: &str, src: &str) -> String {
+    use quote::ToTokens;
+    let item: syn::Item = match syn::parse_str(src) {
+        Ok(i) => i,
+        Err(e) => return format!("synerr\t{}", esc(&e.to_string())),
+    };
+    let dummy: syn::Type = syn::parse_quote!(Orig);
+    fn push_o<T: quote::ToTokens>(v: &mut Vec<String>, k: &str, o: &Option<T>) { if let Some(x) = o { v.push(format!("{k}={}", x.to_token_stream())) } }
+    fn push_s(v: &mut Vec<String>, k: &str, o: &Option<String>) { if let Some(x) = o { v.push(format!("{k}={x}")) } }
+    fn push_b(v: &mut Vec<String>, k: &str, b: bool) { if b { v.push(format!("{k}=true")) } }
+    fn push_i(v: &mut Vec<String>, k: &str, o: &Option<crate::attr::Inflection>) { if let Some(x) = o { v.push(format!("{k}={x:?}")) } }
+    fn push_opt(v: &mut Vec<String>, k: &str, o: &crate::attr::Optional) {
+        match o {
+            crate::attr::Optional::Optional { nullable: true } => v.push(format!("{k}=nullable")),
+            crate::attr::Optional::Optional { nullable: false } => v.push(format!("{k}=optional")),
+            crate::attr::Optional::NotOptional => (),
+        }
+    }
+    let r: syn::Result<Vec<String>> = (|| {
+        let mut v = Vec::new();
+        match (pos, &item) {
+            ("struct", syn::Item::Struct(s)) => {
+                let a = crate::attr::StructAttr::from_attrs(&s.attrs)?;
+                push_o(&mut v, "type_as", &a.type_as); push_s(&mut v, "type_override", &a.type_override); push_i(&mut v, "rename_all", &a.rename_all);
+                push_o(&mut v, "rename", &a.rename); push_o(&mut v, "export_to", &a.export_to); push_b(&mut v, "export", a.export); push_s(&mut v, "tag", &a.tag);
+                push_b(&mut v, "concrete", !a.concrete.is_empty()); push_b(&mut v, "bound", a.bound.is_some()); push_opt(&mut v, "optional_fields", &a.optional_fields);
+            }
+            ("enum", syn::Item::Enum(e)) => {
+                let a = crate::attr::EnumAttr::from_attrs(&e.attrs)?;
+                push_o(&mut v, "type_as", &a.type_as); push_s(&mut v, "type_override", &a.type_override); push_i(&mut v, "rename_all", &a.rename_all);
+                push_i(&mut v, "rename_all_fields", &a.rename_all_fields); push_o(&mut v, "rename", &a.rename); push_o(&mut v, "export_to", &a.export_to);
+                push_b(&mut v, "export", a.export); push_s(&mut v, "tag", &a.tag); push_s(&mut v, "content", &a.content); push_b(&mut v, "untagged", a.untagged);
+                push_b(&mut v, "concrete", !a.concrete.is_empty()); push_b(&mut v, "bound", a.bound.is_some());
+            }
+            ("variant", syn::Item::Enum(e)) => {
+                let var = e.variants.first().expect("a variant");
+                let a = crate::attr::VariantAttr::from_attrs(&var.attrs)?;
+                push_o(&mut v, "type_as", &a.type_as); push_s(&mut v, "type_override", &a.type_override); push_o(&mut v, "rename", &a.rename);
+                push_i(&mut v, "rename_all", &a.rename_all); push_b(&mut v, "inline", a.inline); push_b(&mut v, "skip", a.skip); push_b(&mut v, "untagged", a.untagged);
+            }
+            ("field", syn::Item::Struct(s)) => {
+                let f = s.fields.iter().next().expect("a field");
+                let a = crate::attr::FieldAttr::from_attrs(&f.attrs)?;
+                let ta = a.type_as(&dummy).to_token_stream().to_string();
+                if ta != "Orig" { v.push(format!("type_as={ta}")) }
+                push_s(&mut v, "type_override", &a.type_override); push_s(&mut v, "rename", &a.rename); push_b(&mut v, "inline", a.inline);
+                push_b(&mut v, "skip", a.skip); push_opt(&mut v, "optional", &a.optional); push_b(&mut v, "flatten", a.flatten);
+                push_b(&mut v, "using_serde_with", a.using_serde_with);
+            }
+            _ => v.push("unsupported position".to_owned()),
+        }
+        v.sort();
+        Ok(v)
+    })();
+    match r {
+        Ok(v) => format!("ok\t{}", esc(&v.join(";"))),
+        Err(e) => format!("err\t{}", esc(&e.to_string())),
+    }
+}
+
 fn handle(line: &str) -> String {
     let f: Vec<String> = line.split('\t').map(unesc).collect();
     match f[0].as_str() {
@@ -84,6 +146,7 @@ fn handle(line: &str) -> String {
         },
         "parse_docs" => docs_of(&f[1]),
         "expand" => expand(&f[1]),
+        "attrs" => attrs_dump(&f[1], &f[2]),
         other => panic!("unknown op {other}"),
     }
 }
